@@ -135,6 +135,9 @@ type Walker struct {
 
 	// NoInline disables stepping into new helper functions (Ctx.IsNew).
 	NoInline bool
+	// EnterCall is called with the call instruction the walker is about to step into (clients that
+	// treat calls as events see the helper call as well as what happens inside it).
+	EnterCall func(p *PState, call *ssa.Call)
 	// EnterInline is called before the walker steps into a new helper function (again),
 	// while the facts about the helper's values from a previous walk are still present.
 	EnterInline func(p *PState, callee *ssa.Function)
@@ -457,6 +460,9 @@ func (w *Walker) instrs(b *ssa.BasicBlock, p *PState, start int) {
 							p.fvars[fv] = p.Resolve(mc.Bindings[j])
 						}
 					}
+				}
+				if w.EnterCall != nil {
+					w.EnterCall(p, call)
 				}
 				if w.EnterInline != nil {
 					w.EnterInline(p, cal)
